@@ -84,6 +84,8 @@ FAULTS = {
     'bad_selector': ("c16..f.z = 1", SyntaxError, 'syntax'),
     'space_in_selector': ("c16.f z = 1", SyntaxError, 'syntax'),
     'no_equals': ("c16.f.z 1", SyntaxError, 'syntax'),
+    # a line whose very first token cannot be tokenized (the parser reads one token ahead of each statement)
+    'untokenizable_line': ("\x00c16.f.z = 1", (SyntaxError, tokenize.TokenError, SystemError), 'syntax'),  # SystemError: CPython 3.12 tokenizer, NUL right after a dedent
     'unknown_param': ("c16.f.nope = 1", ValueError, 'semantic'),
     'unknown_param_multiline': ("c16.f.nope = [1,\n  2,\n  3]", ValueError, 'semantic'),
     'unknown_configurable': ("c16.nofn.z = 1", ValueError, 'semantic'),
